@@ -426,8 +426,15 @@ func (c *Ctx) RunShards() {
 		go func(k int) {
 			cmd := exec.Command(os.Args[0], os.Args[1:]...)
 			cmd.Env = append(os.Environ(), fmt.Sprintf("VERIF_SHARD=%d/%d", k, w))
-			if k%2 == 1 && !c.NoDebugWorkers {
-				cmd.Env = append(cmd.Env, "VERIF_DEBUG=1") // odd workers call every entry point with debug=true
+			if k%4 == 2 {
+				// these workers run in an unusual environment: no property lets an answer depend on it
+				cmd.Env = append(cmd.Env, "TZ=Pacific/Kiritimati", "SOURCE_DATE_EPOCH=1700000000", "LANG=tr_TR.UTF-8", "LC_ALL=tr_TR.UTF-8", "DEBUG=1", "VERBOSE=1", "CI=true",
+					"NO_COLOR=1", "TERM=dumb", "COLUMNS=7", "LINES=3", "OPA_LOG_LEVEL=debug", "ACV_DEBUG=1", "ACV_CACHE=1", "NODE_ENV=production")
+			}
+			if k%4 == 1 && !c.NoDebugWorkers {
+				cmd.Env = append(cmd.Env, "VERIF_DEBUG=1") // these workers call every entry point with debug=true
+			} else if k%4 == 3 && !c.NoDebugWorkers {
+				cmd.Env = append(cmd.Env, "VERIF_DEBUG=alt") // and these change the flag from call to call
 			}
 			var buf bytes.Buffer
 			cmd.Stdout = &buf
@@ -569,13 +576,18 @@ var (
 	watchdogWindows int
 )
 
-// processCPU: user+system CPU time consumed by this process so far.
+// processCPU: user+system CPU time consumed so far by this process and by the helper processes it has waited for.
 func processCPU() time.Duration {
-	var ru syscall.Rusage
-	if err := syscall.Getrusage(syscall.RUSAGE_SELF, &ru); err != nil {
-		return 0
+	// own threads plus the helper processes already waited for (fresh-process references, CLI runs, strace children):
+	// a worker that waits for helpers is not blocked
+	var total time.Duration
+	for _, who := range []int{syscall.RUSAGE_SELF, syscall.RUSAGE_CHILDREN} {
+		var ru syscall.Rusage
+		if err := syscall.Getrusage(who, &ru); err == nil {
+			total += time.Duration(ru.Utime.Nano() + ru.Stime.Nano())
+		}
 	}
-	return time.Duration(ru.Utime.Nano() + ru.Stime.Nano())
+	return total
 }
 
 // End disarms the watchdog.
